@@ -87,6 +87,9 @@ example (n k : Nat) : SE (defaultInit n k) (endA k (n - k)) ∧
 theorem EhrlichComplete_proved : EhrlichComplete :=
   fun n k _ hkn => ehrlichOK_all n k (by omega)
 
+/-- registered name of `EhrlichComplete_proved` (audited with `#print axioms` on every run). -/
+theorem T20_ehrlich_complete_statement : EhrlichComplete := EhrlichComplete_proved
+
 /-- **Completeness of the Ehrlich walk, every `n`, every `k ≤ n`** (the statement of
 `T20_ehrlich_gray_le9_partial` without the bound): the strings returned by
 `_ehrlich_algorithm(1^k 0^(n-k))` are pairwise different, there are `C(n,k)` of them, each has
@@ -168,6 +171,28 @@ theorem T20_ehrlich_last_shapes (kind w z : Nat) (h : seValid kind w z = true) :
   rw [this]
 
 example : seValid 2 3 2 = true := by decide
+
+/-- **initial strings of the Hamming-weight blocks of `_binary_encoder_hyperspherical`, every
+`n`**: the chain `initial_string ↦ _intermediate_gate(last string of the walk)` of the python
+loop (`hsInits`: the model runs the walks) produces `1 0^(n-1)`, then `1^w 0^(n-w)` for even `w`
+and `0^(n-w) 1^w` for odd `w ≥ 3` (`hsInitClosed`). -/
+theorem T20_hs_inits (n : Nat) (hn : 1 ≤ n) :
+    hsInits n = (List.range (n - 1)).map (fun i => hsInitClosed n (1 + i)) :=
+  hsInits_closed n hn
+
+/-- … and from each of them the walk is complete: pairwise different strings, `C(n,w)` of them,
+every string of its length and weight visited. -/
+theorem T20_hs_walks_complete (n w : Nat) :
+    (ehrlichStrings (hsInitClosed n w)).Nodup ∧
+    (ehrlichStrings (hsInitClosed n w)).length
+      = choose (hsInitClosed n w).length (weight (hsInitClosed n w)) ∧
+    ∀ τ : List Bool, τ.length = (hsInitClosed n w).length → weight τ = weight (hsInitClosed n w) →
+      τ ∈ ehrlichStrings (hsInitClosed n w) := by
+  obtain ⟨ρ, hρ⟩ := hsInitClosed_valid n w
+  obtain ⟨_, h1, h2, h3, _⟩ := T20_ehrlich_complete_shapes _ ρ hρ
+  exact ⟨h1, h2, h3⟩
+
+example : (hsInits 5).map showBits = ["00001", "00011", "11100", "01111"] := by decide
 
 /-- the model's binomial coefficient (python: `int(binom(n, k))`) is the binomial coefficient. -/
 theorem T20_choose_eq (n k : Nat) : choose n k = Nat.choose n k := by
